@@ -52,6 +52,8 @@ def main():
         sys.exit(selftest.main(args))
     if args.what == 'digest':
         prop = props.PROPS[args.arg]
+        if getattr(prop, 'WARMUP', None):
+            prop.WARMUP()
         import json
         out = {}
         for res in runner.run_pool(prop, seed, args.runs or 32, args.tier, args.workers or 4, 600,
